@@ -870,7 +870,9 @@ func (env *ExprEnv) binary(e *ast.BinaryExpr) TV {
 	}
 	if e.Op == token.SHL || e.Op == token.SHR {
 		x = env.coerce(x, types.Typ[types.Int], v.idx())
+		ycv := y.CV
 		y = env.coerce(y, types.Typ[types.Uint], v.sortOf(types.Typ[types.Uint]))
+		y.CV = ycv
 		return TV{T: v.shift(e.Op, x, y), Ty: x.Ty, Sort: x.Sort}
 	}
 	if x.Ty == nil || (x.Ty == types.Typ[types.UntypedNil] && y.Ty != nil) {
@@ -1034,7 +1036,17 @@ func (v *FV) mathDiv(a, b Term) Term {
 
 func (v *FV) shift(op token.Token, x, y TV) Term {
 	if v.mode == ModeMath {
-		fail("shift in math mode")
+		// shifts by constants are multiplication / floor division
+		if y.CV != nil {
+			if n, ok := constant.Uint64Val(constant.ToInt(y.CV)); ok && n < 200 {
+				p := new(big.Int).Lsh(big.NewInt(1), uint(n)).String()
+				if op == token.SHL {
+					return fmt.Sprintf("(* %s %s)", x.T, p)
+				}
+				return fmt.Sprintf("(div %s %s)", x.T, p)
+			}
+		}
+		fail("variable shift in math mode")
 	}
 	xb, xs, _ := intInfo(x.Ty)
 	yb, _, _ := intInfo(y.Ty)
@@ -1063,7 +1075,17 @@ func (v *FV) convInt(x TV, to types.Type) Term {
 		fail("convInt on non-integers")
 	}
 	if v.mode == ModeMath {
-		return x.T // range obligations are generated by the executor; in contracts conversions are exact
+		// range obligations are generated by the executor; in contracts a narrowing conversion truncates
+		if tb < fb {
+			_, tsg, _ := intInfo(to)
+			m := new(big.Int).Lsh(big.NewInt(1), uint(tb)).String()
+			if !tsg {
+				return fmt.Sprintf("(mod %s %s)", x.T, m)
+			}
+			h := new(big.Int).Lsh(big.NewInt(1), uint(tb-1)).String()
+			return fmt.Sprintf("(- (mod (+ %s %s) %s) %s)", x.T, h, m, h)
+		}
+		return x.T
 	}
 	if tb == fb {
 		return x.T
@@ -1352,7 +1374,11 @@ func (env *ExprEnv) quant(kind string, e *ast.CallExpr) TV {
 	bname := fmt.Sprintf("%s_q%d", mangle(id.Name), v.ctr)
 	saved, had := env.vars[id.Name]
 	env.vars[id.Name] = TV{T: bname, Ty: bty, Sort: bs}
-	b := env.coerce(env.eval(body), nil, "")
+	v.inBinder++
+	b := func() TV {
+		defer func() { v.inBinder-- }()
+		return env.coerce(env.eval(body), nil, "")
+	}()
 	if had {
 		env.vars[id.Name] = saved
 	} else {
